@@ -9,10 +9,18 @@
 #ifndef TD_MAXTURNS
 #define TD_MAXTURNS 4096   /* quick tier: |lon| < 4096 turns; thorough tier: 2^31 turns */
 #endif
-/*@ clause frame src=property props=C14 */
+/*@ clause frame src=property props=C14 only=enforce */
 __CPROVER_assigns(vm_last_k)
+/*@ clause frame.caller src=property only=replace */
+/* the model's ghost is not part of what a caller sees */
+__CPROVER_assigns()
 /*@ clause post.range src=property props=C08 */
 __CPROVER_ensures(-1 <= __CPROVER_return_value && __CPROVER_return_value <= 1)
 /*@ clause post.parity src=header props=C08 */
 __CPROVER_ensures(!(TD_IN(TD_N1, lon1) && TD_IN(TD_N2, lon2)) ||
                   __CPROVER_return_value == (TD_N2 % 2 != 0 ? 1 : 0) - (TD_N1 % 2 != 0 ? 1 : 0))
+/*@ ghost */
+int __CPROVER_uninterpreted_transitdirect(double, double);
+/*@ clause post.deterministic src=purity only=replace */
+/* for callers: the count is a function of the two longitudes only (the function is static and reads nothing else) */
+__CPROVER_ensures(__CPROVER_return_value == __CPROVER_uninterpreted_transitdirect(lon1, lon2))
